@@ -12,7 +12,42 @@ use crate::sched::{self, SchedCfg};
 use multiqueue2_verif_rt as rt;
 use std::collections::BTreeMap;
 use std::io::Write;
+use std::sync::atomic::{AtomicBool, AtomicU64, Ordering};
 use std::time::Instant;
+
+// A run that never comes back (an endless loop in code the simulator does not control, e.g.
+// a destructor walking 2^64 positions on a broken tree) would hang the worker and with it
+// the whole check. A watchdog thread notices that no run started or finished for a long
+// time, reports the run index on stdout and ends the process.
+static BEAT: AtomicU64 = AtomicU64::new(0);
+static CUR_INDEX: AtomicU64 = AtomicU64::new(u64::MAX);
+static DONE: AtomicBool = AtomicBool::new(false);
+
+fn start_watchdog() {
+    let limit: u64 = std::env::var("VERIF_WATCHDOG_S").ok().and_then(|s| s.parse().ok()).unwrap_or(90);
+    std::thread::spawn(move || {
+        let mut last = u64::MAX;
+        let mut idle = 0u64;
+        loop {
+            std::thread::sleep(std::time::Duration::from_secs(1));
+            if DONE.load(Ordering::SeqCst) {
+                return;
+            }
+            let b = BEAT.load(Ordering::SeqCst);
+            if b == last {
+                idle += 1;
+            } else {
+                idle = 0;
+                last = b;
+            }
+            if idle > limit {
+                println!("{{\"hung_index\":{}}}", CUR_INDEX.load(Ordering::SeqCst));
+                let _ = std::io::stdout().flush();
+                std::process::exit(4);
+            }
+        }
+    });
+}
 
 pub struct WorkerCfg {
     pub prop: String,
@@ -138,6 +173,8 @@ impl<'a> RunSource for Src<'a> {
             return None;
         }
         let index = self.next_index()?;
+        BEAT.fetch_add(1, Ordering::SeqCst);
+        CUR_INDEX.store(index, Ordering::SeqCst);
         let seed = prng::run_seed(self.cfg.base_seed, self.salt, index);
         let (s, c) = props::generate(&self.cfg.prop, seed, index);
         self.cur = Some((index, seed, s.clone(), c.clone()));
@@ -145,6 +182,7 @@ impl<'a> RunSource for Src<'a> {
     }
 
     fn done(&mut self, o: RunOutcome) {
+        BEAT.fetch_add(1, Ordering::SeqCst);
         let (index, seed, scn, cfg) = self.cur.take().unwrap();
         let sum = &mut self.sum;
         if sum.runs == 0 {
@@ -242,7 +280,9 @@ pub fn run_worker(cfg: &WorkerCfg) -> J {
         salt: props::salt(&cfg.prop),
         findings: crate::findings::load(),
     };
+    start_watchdog();
     exec::run_batch(&mut src);
+    DONE.store(true, Ordering::SeqCst);
     let wall = src.start.elapsed().as_secs_f64();
     if let Some(path) = &cfg.digest_file {
         if let Ok(mut f) = std::fs::File::create(path) {
